@@ -73,6 +73,9 @@ pub const E4_U: Shape = unsplit(8, 0b0010_1101, 0b0001_0000);
 harness2!(eq_same__s8_4a__u, eq_same, S8_4A, E4_U);
 harness2!(eq_same__u__s8_8g0, eq_same, E4_U, S8_8G0);
 harness2!(eq_same__s8_8g0__s8_4a, eq_same, S8_8G0, S8_4A);
+pub const E2_U: Shape = unsplit(8, 0b0010_0100, 0b0000_0001);
+harness2!(eq_same__s8m0_4a__u2, eq_same, S8M0_4A, E2_U);
+harness2!(eq_same__u2__s8m0_4a, eq_same, E2_U, S8M0_4A);
 
 /// contents that differ in exactly one value (possibly of an element parked in an old table),
 /// or in one key: the maps must compare unequal both ways
